@@ -81,7 +81,7 @@ func (g *gen) prog(n int) {
 		g.p("%smu.Unlock()", ind)
 	}
 	// consumers
-	style := r.Intn(3)
+	style := r.Intn(4)
 	if nch == 1 && style == 2 {
 		style = r.Intn(2)
 	}
@@ -141,6 +141,55 @@ func (g *gen) prog(n int) {
 		g.p("\t\t\t}")
 		g.p("\t\t}")
 		g.p("\t}()")
+	case 3: // forwarders push into a mutex+cond protected queue, one or two consumers wait on the condition
+		g.p("\tvar qmu sync.Mutex")
+		g.p("\tqcond := sync.NewCond(&qmu)")
+		g.p("\tvar queue []int")
+		g.p("\tqdone := false")
+		g.p("\tvar fw sync.WaitGroup")
+		for i := 0; i < nch; i++ {
+			g.p("\tfw.Add(1)")
+			g.p("\tgo func() {")
+			g.p("\t\tdefer fw.Done()")
+			g.p("\t\tfor v := range c%d {", i)
+			g.p("\t\t\tqmu.Lock()")
+			g.p("\t\t\tqueue = append(queue, v)")
+			g.p("\t\t\tqmu.Unlock()")
+			if r.Intn(2) == 0 {
+				g.p("\t\t\tqcond.Signal()")
+			} else {
+				g.p("\t\t\tqcond.Broadcast()")
+			}
+			g.p("\t\t}")
+			g.p("\t}()")
+		}
+		g.p("\tgo func() {")
+		g.p("\t\tfw.Wait()")
+		g.p("\t\tqmu.Lock()")
+		g.p("\t\tqdone = true")
+		g.p("\t\tqmu.Unlock()")
+		g.p("\t\tqcond.Broadcast()")
+		g.p("\t}()")
+		g.p("\tfor q := 0; q < %d; q++ {", 1+r.Intn(2))
+		g.p("\t\twg.Add(1)")
+		g.p("\t\tgo func() {")
+		g.p("\t\t\tdefer wg.Done()")
+		g.p("\t\t\tfor {")
+		g.p("\t\t\t\tqmu.Lock()")
+		g.p("\t\t\t\tfor len(queue) == 0 && !qdone {")
+		g.p("\t\t\t\t\tqcond.Wait()")
+		g.p("\t\t\t\t}")
+		g.p("\t\t\t\tif len(queue) == 0 {")
+		g.p("\t\t\t\t\tqmu.Unlock()")
+		g.p("\t\t\t\t\treturn")
+		g.p("\t\t\t\t}")
+		g.p("\t\t\t\tv := queue[0]")
+		g.p("\t\t\t\tqueue = queue[1:]")
+		g.p("\t\t\t\tqmu.Unlock()")
+		add("\t\t\t\t")
+		g.p("\t\t\t}")
+		g.p("\t\t}()")
+		g.p("\t}")
 	case 2: // one consumer selecting over all channels, nil-ing closed ones
 		g.p("\twg.Add(1)")
 		g.p("\tgo func() {")
